@@ -38,7 +38,8 @@ def run_case(ctx, case):
         return
     ctx.case(key=case, nontrivial=True)
     for clause, observed, required in res:
-        ctx.check(False, clause=clause, input=dict(case, oal=C.bodies(case)), observed=observed, required=required)
+        ctx.check(False, clause=clause, input=dict(case, population=case.get('population') or C.POPULATION, oal=C.bodies(case)),
+                  observed=observed, required=required)
 
 
 # ------------------------------------------------------------------------------------------------- templates
@@ -141,8 +142,19 @@ def template_case(kind, form, context, order):
     return dict(callables=[cal, main], derived={}, rows=None, entry=dict(kind='function', name='main', owner=None, args={}, this=None))
 
 
+def minimal_return_cases():
+    """The smallest bodies for each return form: `return;`, `x = 1; return;`, `x = 1;`, `return 1;`."""
+    for kind in KINDS:
+        for body, ret, form in (([['return', None]], None, 'bare'), ([['assign', X, ['int', 1]], ['return', None]], None, 'bare'),
+                                ([['assign', X, ['int', 1]]], None, 'fall'), ([], None, 'fall'), ([['return', ['int', 1]]], 'int', 'value')):
+            yield dict(callables=[dict(kind=kind, name='T', owner=OWNER[kind], params=[], ret=ret, form=form, body=body)], derived={}, rows=None,
+                       entry=dict(kind=kind, name='T', owner=OWNER[kind], args={}, this=0 if kind == 'iop' else None))
+
+
 def template_cases():
     n = 0
+    for case in minimal_return_cases():
+        yield case
     for kind in KINDS:
         for form in ('int', 'str', 'bool', 'bare', 'fall'):
             for context in CONTEXTS:
@@ -274,7 +286,8 @@ def self_cases():
             'between all 16 pairs of kinds, chains over all 4 kinds in all 24 orders, void recursion; derived attributes (3 bodies) read twice around '
             'a write, in where clauses, loops and loop conditions, and from Python; self as handle of 12 statement forms on 3 receivers; exhaustive')
 def templates(ctx):
-    ctx.note(NOTE)
+    if ctx.shard == 0:
+        ctx.note(NOTE)
     cases = list(template_cases()) + list(recursion_cases()) + list(derived_cases()) + list(self_cases())
     for n, case in enumerate(cases):
         if n % ctx.nshards != ctx.shard:
@@ -287,13 +300,14 @@ def templates(ctx):
 
 
 # ------------------------------------------------------------------------------------------------- random call graphs
-@item('callgraphs', stands_in_for=STANDS, shards=9, weight=4,
+@item('callgraphs', stands_in_for=STANDS, shards=8, weight=4,
       bound='random models of 2-5 callables (functions, bridges, class / instance operations) + derived attribute A.d with random bodies '
             '(C04 statement generator + parameters, self, enumerators, constants, up to 3 invocations per body anywhere an expression or '
             'statement may stand), every invocation passes d-1 so that call depth <= 3 with recursion and mutual calls; entry invoked from Python '
             'with d in 1..3; <= 60 invocations per case; sampled until 80% of the time budget')
 def callgraphs(ctx):
-    ctx.note(NOTE)
+    if ctx.shard == 0:
+        ctx.note(NOTE)
     while not soft_expired(ctx):
         run_case(ctx, C.gen_case(ctx.rng))
     ctx.exhausted = False
@@ -343,6 +357,9 @@ def check_symbols(case):
 
 
 def symbol_cases(quick):
+    yield symbols_case({'En': ['e0', 'e1']}, [], 'enum-perm:En:1,0')          # the smallest inputs first
+    yield symbols_case({'En': ['e0', 'e1', 'e2']}, [], 'enum-reverse')
+    yield symbols_case({'En': ['e0']}, [['B2', 'boolean', 'TRUE']], 'reverse')
     names = ['e0', 'e1', 'e2', 'e3']
     consts = [['N0', 'integer', '0'], ['N1', 'integer', '42'], ['S0', 'string', ''], ['S1', 'string', 'some text'], ['B0', 'boolean', 'false'],
               ['B1', 'boolean', 'true'], ['B2', 'boolean', 'TRUE']]
@@ -359,11 +376,10 @@ def symbol_cases(quick):
 
 
 @item('enumerators-constants-rows', stands_in_for=['bridgepoint.ooaofooa.mk_enum', 'bridgepoint.ooaofooa.mk_constant', 'bridgepoint.ooaofooa.mk_component'],
-      shards=2, weight=1,
+      shards=1, weight=1,
       bound='enumeration of 1..4 enumerators (+ a second enumeration) and 7 constants (integer, string, boolean); S_ENUM rows in every permutation, '
             'all enumerations reversed, whole file reversed, whole file shuffled (3 seeds quick / 12 thorough); every enumerator and constant read '
-            'from Python (domain symbol) and from OAL (function returning it); exhaustive.  Plus random call graphs re-run with the rows of '
-            'the model file reversed / shuffled (until 80% of the budget)')
+            'from Python (domain symbol) and from OAL (function returning it); exhaustive')
 def enumerators_constants_rows(ctx):
     for n, case in enumerate(symbol_cases(ctx.quick)):
         if n % ctx.nshards != ctx.shard:
@@ -375,13 +391,20 @@ def enumerators_constants_rows(ctx):
         for clause, observed, required in check_symbols(case):
             ctx.check(False, clause=clause, input=case, observed=observed, required=required)
     ctx.exhausted = True
-    extra = 0
+
+
+@item('callgraphs-permuted-rows', stands_in_for=STANDS, shards=2, weight=1,
+      bound='random call graphs as in item callgraphs (without bare returns), loaded from model text whose rows are reversed / shuffled / have '
+            'the S_ENUM rows reversed; clause enumerator-modeled-order when the reference read an enumerator, else row-order-independent; '
+            'sampled until 80% of the time budget')
+def callgraphs_permuted_rows(ctx):
+    if ctx.shard == 0:
+        ctx.note(NOTE)
     while not soft_expired(ctx):
         case = C.gen_case(ctx.rng, bare_rate=0.0)
         case['rows'] = ctx.rng.choice(['reverse', 'enum-reverse', 'shuffle:%d' % ctx.rng.randrange(1000)])
         run_case(ctx, case)
-        extra += 1
-    ctx.note('%d random call graphs with permuted rows in this shard' % extra)
+    ctx.exhausted = False
 
 
 # ------------------------------------------------------------------------------------------------- replay
